@@ -1,7 +1,7 @@
 (* C12 - Refinement decisions are consistent, exact and terminate.
    Statements only; every proof is [exact <lemma>]. *)
 From FrameModel Require Import Num.QcTac Geometry.Rect Alloc.Alloc Alloc.GeomExtra Alloc.RefinesFacts
-  Alloc.AcceptFacts Alloc.OpsFacts Alloc.DecisionFacts.
+  Alloc.AcceptFacts Alloc.OpsFacts Alloc.DecisionFacts Alloc.GriddifyFacts.
 Open Scope list_scope.
 Open Scope Qc_scope.
 
@@ -57,3 +57,30 @@ Theorem C12_uniform_all_at_max : forall cells new, Forall (fun c => wf (crect c)
   Forall (fun p => fixed (crect p) = false -> cdepth p = max_depth cells) new.
 Proof. exact uniform_all_at_max. Qed.
 Print Assumptions C12_uniform_all_at_max.
+
+(* grid refinement: in the result no refinable cell has a boundary line of an original cell strictly
+   inside it unless cutting there was tried and refused on an ancestor of the cell (refused_x /
+   refused_y: the cell, or a cell it was cut from, not fixed, with the line strictly inside and
+   x_cuttable / y_cuttable false) *)
+Theorem C12_griddify_aligned : forall eps q cells new,
+  Forall (fun c => wf (crect c)) cells -> in_quadrant cells = true ->
+  griddify_cells eps q cells = Some new ->
+  let xc := fst (gather_boundaries eps (map crect cells)) in
+  let yc := snd (gather_boundaries eps (map crect cells)) in
+  Forall (fun f => fixed (crect f) = false ->
+     (forall x, In x (interior xc) -> xmin (crect f) < x -> x < xmax (crect f) -> refused_x q x cells f) /\
+     (forall y, In y (interior yc) -> ymin (crect f) < y -> y < ymax (crect f) -> refused_y q y cells f)) new.
+Proof. exact griddify_aligned. Qed.
+Print Assumptions C12_griddify_aligned.
+
+(* a refused cut strictly inside a cell is a sliver cut: one piece would be no thicker than q times
+   the cell's other side *)
+Theorem C12_refused_is_sliver_x : forall r x q, xmin r < x -> x < xmax r -> x_cuttable r x q = false ->
+  x - xmin r <= q * rh r \/ xmax r - x <= q * rh r.
+Proof. exact refused_is_sliver_x. Qed.
+Print Assumptions C12_refused_is_sliver_x.
+
+Theorem C12_refused_is_sliver_y : forall r y q, ymin r < y -> y < ymax r -> y_cuttable r y q = false ->
+  y - ymin r <= q * rw r \/ ymax r - y <= q * rw r.
+Proof. exact refused_is_sliver_y. Qed.
+Print Assumptions C12_refused_is_sliver_y.
